@@ -335,8 +335,10 @@ def onboard_carried_out(run, rid="R7"):
             cp = cmp_parts(e) if e is not None else None
             if cp is not None:
                 l, op, r = cp
-                if isinstance(l, ast.Subscript) and isinstance(l.slice, ast.Constant) and l.slice.value == 2 and isinstance(l.value, ast.Call) and call_name(l.value) == "_send_command" \
-                        and isinstance(r, ast.Constant) and (op, r.value) in (("!=", 0), (">", 0), (">=", 1)):
+                oki_, iv_ = try_fold(P, l.slice, fn, D) if isinstance(l, ast.Subscript) and not isinstance(l.slice, ast.Slice) else (False, None)
+                okr_, rv_ = try_fold(P, r, fn, D)
+                if isinstance(l, ast.Subscript) and oki_ and unwrap(iv_) == 2 and isinstance(l.value, ast.Call) and call_name(l.value) == "_send_command" \
+                        and okr_ and (op, unwrap(rv_)) in (("!=", 0), (">", 0), (">=", 1)):
                     m_ = P.const_eval(l.value.args[0], fn.module, cls=D) if l.value.args else None
                     ok = isinstance(m_, EnumMember) and m_.name == cmdm
                     if ok and exact is not None:
